@@ -30,7 +30,7 @@ def core_schema():
     # CouponPayingSecurity
     s.declare(
         _coupon="float", _holding_cost="float", _coupons="opthist", _cost_long="opthist", _cost_short="opthist",
-        _coupon_income="hist", _holding_costs="hist",
+        _coupon_income="hist", _holding_costs="hist", _ucol="hist",
     )
     # algos state
     s.declare(has_run="bool", days="int", n="int", offset="int", idx="int", lcall="date",
